@@ -20,10 +20,23 @@ import (
 
 // Case is the replay object.
 type Case struct {
-	Probe    string       `json:"probe,omitempty"` // "" = model-checked case; "syscontract" | "deploy+replace" = optional probes
-	Backend  string       `json:"backend"`         // new | legacy
+	// "" = main family; "syscontract" = system contracts 0x1 / 0x2 (model-checked, classes syscontract:...);
+	// "casm" = Sierra declarations + CASM-hash migrations (classes casm:...); "deploy+replace" = optional probe
+	Probe    string       `json:"probe,omitempty"`
+	Backend  string       `json:"backend"` // new | legacy
 	Universe *sh.Universe `json:"universe"`
 	Ops      []sh.Op      `json:"ops"`
+}
+
+// prefix of the violation classes of the case's family
+func (cs *Case) prefix() string {
+	switch cs.Probe {
+	case "syscontract":
+		return "syscontract:"
+	case "casm":
+		return "casm:"
+	}
+	return ""
 }
 
 func (cs *Case) line() string { return sh.CaseLine(cs.Backend, cs.Universe, cs.Ops) }
@@ -31,13 +44,29 @@ func (cs *Case) line() string { return sh.CaseLine(cs.Backend, cs.Universe, cs.O
 // ---------- oracle reply ----------
 type reply struct {
 	bits   string
+	sysg   string // per op: the sequence up to it satisfies the system-contract guard
 	height int
 	t, m   [][]string
 	h      []string
 }
 
+// unguarded: some accepted block emptied a system contract (or wrote only zeros to a missing one)
+func (r *reply) unguarded() bool { return strings.Contains(r.sysg, "0") }
+
+// askCasm runs the ops through the CASM-metadata machine of the model.
+func askCasm(or *hx.Oracle, classes []string, ops []sh.Op) *reply {
+	cl := "-"
+	if len(classes) > 0 {
+		cl = strings.Join(classes, ",")
+	}
+	return parseReply(or.AskUntil("ccase "+cl+" | "+sh.CasmOpsLine(ops), "end"))
+}
+
 func ask(or *hx.Oracle, backend string, u *sh.Universe, ops []sh.Op) *reply {
-	lines := or.AskUntil(sh.CaseLine(backend, u, ops), "end")
+	return parseReply(or.AskUntil(sh.CaseLine(backend, u, ops), "end"))
+}
+
+func parseReply(lines []string) *reply {
 	r := &reply{}
 	for _, l := range lines {
 		f := strings.Fields(l)
@@ -47,6 +76,8 @@ func ask(or *hx.Oracle, backend string, u *sh.Universe, ops []sh.Op) *reply {
 			if r.bits == "-" {
 				r.bits = ""
 			}
+		case "sysg":
+			r.sysg = f[1]
 		case "height":
 			r.height, _ = strconv.Atoi(f[1])
 			r.t = make([][]string, r.height)
@@ -105,7 +136,9 @@ func (r *result) has(class string) bool {
 // property predicate through the oracle.
 // ref (head only) = the by-number answers at the head block, used to give the known symptom "head
 // storage read of a zeroed slot answers the old value while the historical read is right" its own class.
-func compare(or *hx.Oracle, res *result, cs *Case, qs []sh.Query, how sh.How, n int, got, t, m, ref []string, verbose bool) {
+// unguarded = some block of the sequence emptied a system contract: the faithful model then predicts wrong
+// answers for that contract; an answer that is wrong exactly as modelled gets the class of its root cause.
+func compare(or *hx.Oracle, res *result, cs *Case, qs []sh.Query, how sh.How, n int, got, t, m, ref []string, unguarded, verbose bool) {
 	res.answers += len(got)
 	if len(got) != len(t) || len(got) != len(m) {
 		res.add("c03:answer-count", fmt.Sprintf("%d answers observed, truth %d, model %d", len(got), len(t), len(m)), true)
@@ -121,9 +154,19 @@ func compare(or *hx.Oracle, res *result, cs *Case, qs []sh.Query, how sh.How, n 
 			if firstBad < 0 {
 				firstBad = i
 			}
-			class := fmt.Sprintf("%s:%s:%s:%s", cs.Backend, how, qs[i].Kind, mm)
+			class := fmt.Sprintf("%s%s:%s:%s:%s", cs.prefix(), cs.Backend, how, qs[i].Kind, mm)
 			if cs.Backend == "new" && how == sh.Head && qs[i].Kind == "slot" && mm == "wrong-value" && t[i] == "0" && ref != nil && ref[i] == t[i] {
 				class = "new:head:slot:zeroed-slot-reads-stale-value"
+			}
+			if unguarded && qs[i].Kind != "decl" && sh.IsSysAddr(qs[i].A) && got[i] == m[i] {
+				what := fmt.Sprintf("%s:%s:%s", how, qs[i].Kind, mm)
+				switch {
+				case cs.Backend == "new" && how != sh.Head && mm == "notfound-vs-value":
+					what = "history-lost-after-emptying"
+				case cs.Backend == "legacy" && mm == "value-vs-notfound":
+					what = "empty-contract-reported-as-existing"
+				}
+				class = "syscontract:" + cs.Backend + ":" + what
 			}
 			res.add(class,
 				fmt.Sprintf("%s backend, %s %s at block %d: juno answers %s, the state after block %d has %s (model read: %s) after: %s",
@@ -131,7 +174,7 @@ func compare(or *hx.Oracle, res *result, cs *Case, qs []sh.Query, how sh.How, n 
 		} else if got[i] != m[i] {
 			// juno is right, the transcription reads something else: the correspondence is broken but no
 			// input fails the property
-			res.add(fmt.Sprintf("model-mismatch:%s:%s", cs.Backend, qs[i].Kind),
+			res.add(fmt.Sprintf("model-mismatch:%s%s:%s", cs.prefix(), cs.Backend, qs[i].Kind),
 				fmt.Sprintf("%s backend, %s %s at block %d: juno answers %s (= truth), C03.Model reads %s after: %s",
 					cs.Backend, how, qs[i], n, got[i], m[i], sh.OpsLine(cs.Ops)), true)
 		}
@@ -149,6 +192,46 @@ func compare(or *hx.Oracle, res *result, cs *Case, qs []sh.Query, how sh.How, n 
 	}
 	if ans != want {
 		res.add("c03:predicate-vs-truth-line", fmt.Sprintf("c03_ok says %q, comparison with the truth line says %q (%s block %d)", ans, want, how, n), true)
+	}
+}
+
+// compareCasm: the compiled class hashes of the listed Sierra classes (CompiledClassHash of the reader
+// opened by number / by hash / at head) against the truth line, the model read and casm_ok.
+func compareCasm(or *hx.Oracle, res *result, cs *Case, how sh.How, n int, got, t, m []string, verbose bool) {
+	res.answers += len(got)
+	if len(got) != len(t) || len(got) != len(m) {
+		res.add("c03:answer-count", fmt.Sprintf("casm: %d answers observed, truth %d, model %d", len(got), len(t), len(m)), true)
+		return
+	}
+	firstBad, anyErr := -1, false
+	for i := range got {
+		anyErr = anyErr || sh.IsErrToken(got[i])
+		if mm := sh.Mismatch(got[i], t[i]); mm != "" {
+			if firstBad < 0 {
+				firstBad = i
+			}
+			res.add(fmt.Sprintf("casm:%s:%s:%s", cs.Backend, how, mm),
+				fmt.Sprintf("%s backend, %s CompiledClassHash(%s) at block %d: juno answers %s, the chain's diffs up to block %d give %s (model read: %s) after: %s",
+					cs.Backend, how, cs.Universe.Classes[i], n, got[i], n, t[i], m[i], sh.CasmOpsLine(cs.Ops)), false)
+		} else if got[i] != m[i] {
+			res.add("model-mismatch:casm:"+cs.Backend,
+				fmt.Sprintf("%s backend, %s CompiledClassHash(%s) at block %d: juno answers %s (= truth), C03.Model.casm_read gives %s after: %s",
+					cs.Backend, how, cs.Universe.Classes[i], n, got[i], m[i], sh.CasmOpsLine(cs.Ops)), true)
+		}
+		if verbose && got[i] != m[i] {
+			res.detail = append(res.detail, fmt.Sprintf("  %-8s block %d casm(%s) juno=%s truth=%s model=%s", how, n, cs.Universe.Classes[i], got[i], t[i], m[i]))
+		}
+	}
+	if anyErr {
+		return
+	}
+	ans := or.Ask("cchk "+strconv.Itoa(n)+" "+strings.Join(got, " "), 1)[0]
+	want := "ok"
+	if firstBad >= 0 {
+		want = "bad " + strconv.Itoa(firstBad)
+	}
+	if ans != want {
+		res.add("c03:predicate-vs-truth-line", fmt.Sprintf("casm_ok says %q, comparison with the truth line says %q (%s block %d)", ans, want, how, n), true)
 	}
 }
 
@@ -199,16 +282,33 @@ func runCase(ar *sh.Arena, or *hx.Oracle, cs *Case, obs map[int]bool, verbose bo
 				cs.Backend, H, rep.height, len(p.Chain), sh.OpsLine(cs.Ops[:i+1])), false)
 			return res
 		}
-		sub := &Case{Backend: cs.Backend, Universe: u, Ops: cs.Ops[:i+1]}
+		sub := &Case{Probe: cs.Probe, Backend: cs.Backend, Universe: u, Ops: cs.Ops[:i+1]}
+		ung := rep.unguarded()
 		var byNum []string
 		for n := 0; n < H; n++ {
 			byNum = sh.Observe(p.Fol.BC, u, sh.ByNumber, uint64(n), nil)
-			compare(or, res, sub, qs, sh.ByNumber, n, byNum, rep.t[n], rep.m[n], nil, verbose)
-			compare(or, res, sub, qs, sh.ByHash, n, sh.Observe(p.Fol.BC, u, sh.ByHash, 0, p.Chain[n].Block.Hash), rep.t[n], rep.m[n], nil, verbose)
+			compare(or, res, sub, qs, sh.ByNumber, n, byNum, rep.t[n], rep.m[n], nil, ung, verbose)
+			compare(or, res, sub, qs, sh.ByHash, n, sh.Observe(p.Fol.BC, u, sh.ByHash, 0, p.Chain[n].Block.Hash), rep.t[n], rep.m[n], nil, ung, verbose)
 		}
 		head := sh.Observe(p.Fol.BC, u, sh.Head, 0, nil)
+		if cs.Probe == "casm" {
+			// compiled class hashes through the same readers, against the CASM-metadata machine
+			crep := askCasm(or, u.Classes, cs.Ops[:i+1])
+			if crep.bits != string(real) || crep.height != H {
+				res.add("c03:casm-outcome-mismatch", fmt.Sprintf("%s backend: op outcomes on juno / in the casm machine: %s / %s, heights %d / %d in: %s",
+					cs.Backend, string(real), crep.bits, H, crep.height, sh.CasmOpsLine(cs.Ops[:i+1])), false)
+				return res
+			}
+			for n := 0; n < H; n++ {
+				compareCasm(or, res, sub, sh.ByNumber, n, sh.ObserveCasm(p.Fol.BC, u.Classes, sh.ByNumber, uint64(n), nil), crep.t[n], crep.m[n], verbose)
+				compareCasm(or, res, sub, sh.ByHash, n, sh.ObserveCasm(p.Fol.BC, u.Classes, sh.ByHash, 0, p.Chain[n].Block.Hash), crep.t[n], crep.m[n], verbose)
+			}
+			if H > 0 {
+				compareCasm(or, res, sub, sh.Head, H-1, sh.ObserveCasm(p.Fol.BC, u.Classes, sh.Head, 0, nil), crep.t[H-1], crep.h, verbose)
+			}
+		}
 		if H > 0 {
-			compare(or, res, sub, qs, sh.Head, H-1, head, rep.t[H-1], rep.h, byNum, verbose)
+			compare(or, res, sub, qs, sh.Head, H-1, head, rep.t[H-1], rep.h, byNum, ung, verbose)
 		} else {
 			// empty chain: there is no head state (the reader cannot be opened: key not found) or every answer is "not found"
 			res.answers += len(head)
@@ -244,7 +344,7 @@ func shrink(ar *sh.Arena, or *hx.Oracle, cs *Case, class string) *Case {
 		}
 		return r
 	}
-	cur := &Case{Backend: cs.Backend, Universe: cs.Universe, Ops: sh.CloneOps(cs.Ops)}
+	cur := &Case{Probe: cs.Probe, Backend: cs.Backend, Universe: cs.Universe, Ops: sh.CloneOps(cs.Ops)}
 	if !fails(cur) {
 		return cs
 	}
@@ -257,7 +357,7 @@ func shrink(ar *sh.Arena, or *hx.Oracle, cs *Case, class string) *Case {
 		}
 		for ; size >= 1; size /= 2 {
 			for start := 0; start+size <= len(cur.Ops); {
-				cand := &Case{Backend: cur.Backend, Universe: cur.Universe}
+				cand := &Case{Probe: cur.Probe, Backend: cur.Backend, Universe: cur.Universe}
 				cand.Ops = append(append([]sh.Op{}, cur.Ops[:start]...), cur.Ops[start+size:]...)
 				if fails(cand) {
 					cur, changed = cand, true
@@ -275,14 +375,14 @@ func shrink(ar *sh.Arena, or *hx.Oracle, cs *Case, class string) *Case {
 				continue
 			}
 			for j := cur.Ops[i].Block.Diff.Len() - 1; j >= 0; j-- {
-				cand := &Case{Backend: cur.Backend, Universe: cur.Universe, Ops: sh.CloneOps(cur.Ops)}
+				cand := &Case{Probe: cur.Probe, Backend: cur.Backend, Universe: cur.Universe, Ops: sh.CloneOps(cur.Ops)}
 				cand.Ops[i].Block.Diff = *cur.Ops[i].Block.Diff.Without(j)
 				if fails(cand) {
 					cur, changed = cand, true
 				}
 			}
 			if cur.Ops[i].Block.Salt != 0 {
-				cand := &Case{Backend: cur.Backend, Universe: cur.Universe, Ops: sh.CloneOps(cur.Ops)}
+				cand := &Case{Probe: cur.Probe, Backend: cur.Backend, Universe: cur.Universe, Ops: sh.CloneOps(cur.Ops)}
 				cand.Ops[i].Block.Salt = 0
 				if fails(cand) {
 					cur, changed = cand, true
@@ -327,6 +427,7 @@ type job struct {
 	cs     *Case
 	obs    map[int]bool
 	labels [][]string
+	family string // "" | "syscontract" | "casm"
 	res    *result
 }
 
@@ -350,7 +451,7 @@ func main() {
 		if cs.Universe == nil {
 			cs.Universe = sh.DefaultUniverse()
 		}
-		if cs.Probe != "" {
+		if cs.Probe == "deploy+replace" {
 			replayProbe(c, ar, &cs)
 			c.Finish("replay of one recorded probe case")
 		}
@@ -402,6 +503,56 @@ func main() {
 		}
 	}
 
+	// system-contract family: every shape of writes to 0x1 / 0x2 (creation, growth, zero writes, emptying,
+	// re-creation, reverts across them), 70% of the cases guarded (the shapes C03_new / C03_old cover)
+	nsys := ncases / 5
+	su := sh.SysUniverse()
+	sysR := hx.NewRNG(c.Seed ^ 0x5c5c)
+	for i := 0; i < nsys; i++ {
+		sub := sysR.U64()
+		guarded := i%10 < 7
+		for _, backend := range []string{"new", "legacy"} {
+			ops, info := sh.GenSysCase(hx.NewRNG(sub), su, guarded, backend == "legacy")
+			labels := make([][]string, len(ops))
+			if len(ops) > 0 {
+				labels[0] = info.Labels
+				if info.Guarded {
+					labels[0] = append(labels[0], "sys:case-guarded")
+				} else {
+					labels[0] = append(labels[0], "sys:case-unguarded")
+				}
+			}
+			obs := map[int]bool{}
+			for k, o := range ops {
+				if o.Revert || k%2 == 1 {
+					obs[k] = true
+				}
+			}
+			jobs = append(jobs, &job{idx: len(jobs), cs: &Case{Probe: "syscontract", Backend: backend, Universe: su, Ops: ops}, obs: obs, labels: labels, family: "syscontract"})
+		}
+	}
+	// Sierra declarations and CASM-hash migrations: Class(h) "at that block" through the main model (declared-at)
+	// and CompiledClassHash through the CASM-metadata machine, by number / by hash / at head, across reverts
+	ncasm := ncases / 10
+	casmR := hx.NewRNG(c.Seed ^ 0xca53)
+	for i := 0; i < ncasm; i++ {
+		ops, ids := sh.GenCasmCase(hx.NewRNG(casmR.U64()))
+		cu := &sh.Universe{}
+		for _, id := range ids {
+			cu.Classes = append(cu.Classes, sh.Hex(sh.SierraHash(id)))
+		}
+		cu.Classes = append(cu.Classes, "a") // never declared
+		obs := map[int]bool{}
+		for k, o := range ops {
+			if o.Revert || k%2 == 1 {
+				obs[k] = true
+			}
+		}
+		for _, backend := range []string{"new", "legacy"} {
+			jobs = append(jobs, &job{idx: len(jobs), cs: &Case{Probe: "casm", Backend: backend, Universe: cu, Ops: ops}, obs: obs, labels: make([][]string, len(ops)), family: "casm"})
+		}
+	}
+
 	workers := numWorkers()
 	var wg sync.WaitGroup
 	next := make(chan *job, len(jobs))
@@ -423,12 +574,42 @@ func main() {
 	}
 	wg.Wait()
 
-	total := 0
+	total, sysAnswers, casmAnswers := 0, 0, 0
 	for _, j := range jobs {
 		total += j.res.answers
-		c.Count(j.cs.Backend+"|"+sh.OpsLine(j.cs.Ops), sh.Nontrivial(j.cs.Ops))
-		c.Hist["backend-"+j.cs.Backend]++
+		if j.family == "casm" {
+			c.Count("casm|"+j.cs.Backend+"|"+sh.CasmOpsLine(j.cs.Ops), len(j.cs.Universe.Classes) > 1)
+			c.Hist["casm-case-"+j.cs.Backend]++
+			for _, o := range j.cs.Ops {
+				switch {
+				case o.Revert:
+					c.Hist["casm:revert"]++
+				default:
+					c.Hist["casm:sierra-declaration"] += len(o.Block.DeclareV1)
+					c.Hist["casm:migration"] += len(o.Block.Migrate)
+					c.Hist["casm:block-version-"+o.Block.Version]++
+				}
+			}
+			casmAnswers += j.res.answers
+		} else {
+			c.Count(j.family+"|"+j.cs.Backend+"|"+sh.OpsLine(j.cs.Ops), sh.Nontrivial(j.cs.Ops))
+		}
+		if j.family == "syscontract" {
+			c.Hist["syscontract-case-"+j.cs.Backend]++
+			sysAnswers += j.res.answers
+		} else if j.family == "" {
+			c.Hist["backend-"+j.cs.Backend]++
+		}
 		for k, ls := range j.labels {
+			if len(ls) == 0 {
+				continue
+			}
+			if j.family != "" {
+				for _, l := range ls {
+					c.Hist[l]++
+				}
+				continue
+			}
 			// self-check of the generator: every generated Store is valid in the model (and, the outcomes
 			// being equal, accepted by juno)
 			if !j.cs.Ops[k].Revert && k < len(j.res.modBits) && j.res.modBits[k] == '0' && len(j.res.findings) == 0 {
@@ -449,7 +630,9 @@ func main() {
 				}
 			}
 		}
-		c.Hist[fmt.Sprintf("final-height-%02d", j.res.height)]++
+		if j.family == "" {
+			c.Hist[fmt.Sprintf("final-height-%02d", j.res.height)]++
+		}
 		if j.idx < 4 {
 			c.Sample(map[string]any{"backend": j.cs.Backend, "ops": sh.OpsLine(j.cs.Ops), "outcomes": j.res.realBits,
 				"final_height": j.res.height, "answers_compared": j.res.answers})
@@ -460,6 +643,10 @@ func main() {
 		}
 	}
 	c.Extra["queries"] = total
+	c.Extra["syscontract_answers"] = sysAnswers
+	c.Extra["syscontract_cases"] = nsys
+	c.Extra["casm_answers"] = casmAnswers
+	c.Extra["casm_cases"] = ncasm
 	c.Extra["cases"] = ncases
 	c.Extra["universe"] = u
 	c.Extra["workers"] = workers
@@ -473,7 +660,12 @@ func main() {
 		"diffs are valid on the tracked abstract state: deployments, replacements of pre-existing contracts (also by the same class), nonces (bump, same, zero, on deploy), " +
 		"writes (non-zero, overwrite, back to zero, same value, zero to a zero slot), deploy-and-touch, Cairo0 declarations (also repeated); reverts come in bursts (1..3 or down to genesis) and are " +
 		"followed by a different block or (25%) the reverted block again (same or new salt); the follower is read by number, by hash (every block) and at head after every revert, two random ops and the last op; " +
-		"every answer is compared with the truth line, the model read and c03_ok; non-trivial = a revert followed by a store, or a zero / same-value write; distinct by (backend, op sequence)")
+		"every answer is compared with the truth line, the model read and c03_ok; non-trivial = a revert followed by a store, or a zero / same-value write; distinct by (backend, op sequence). " +
+		"System-contract family (cases/5 per backend, classes syscontract:...): 3..11 ops over 0x1, 0x2 and one ordinary contract x 3 slots - creation by a first write, growth, overwrites, same-value and zero writes, zero writes to a missing contract, " +
+		"writes that EMPTY the contract, re-creation, revert bursts across all of them; 70% of the cases keep every written system contract non-empty (sys_guard: the shapes C03_new / C03_old cover), the oracle reports sys_guarded per op; " +
+		"read and compared like the main family (model read = C03.Model incl. auto-creation / purge by storage root of both backends). " +
+		"Sierra / CASM family (cases/10, classes casm:...): 3..10 ops whose blocks (0.14.0 / 0.14.1) declare 0..2 Sierra classes and migrate the compiled class hash of classes declared under the old hash, with revert bursts; " +
+		"Class(h) by number / by hash / at head against the main model (declared-at) and CompiledClassHash by number / by hash / at head against the CASM-metadata machine (casm_read / casm_head, truth ctruth_at, predicate casm_ok)")
 }
 
 // ---------- optional probes (outside the Coq model; Go-side truth) ----------
@@ -482,8 +674,6 @@ const optionalProbes = true
 // probeFails runs one probe case and tells whether it yields the class.
 func probeRun(ar *sh.Arena, cs *Case) ([]sh.ProbeFinding, int) {
 	switch cs.Probe {
-	case "syscontract":
-		return sh.RunSysCase(ar, cs.Backend == "new", cs.Universe, cs.Ops)
 	case "deploy+replace":
 		fs, _ := sh.RunDeployReplace(ar, cs.Backend == "new", cs.Ops)
 		return fs, 2
@@ -513,7 +703,7 @@ func probeReport(c *hx.Ctx, ar *sh.Arena, cs *Case, f sh.ProbeFinding) {
 	}
 	cur := &Case{Probe: cs.Probe, Backend: cs.Backend, Universe: cs.Universe, Ops: sh.CloneOps(cs.Ops)}
 	what := f.What
-	for changed := true; changed && cs.Probe == "syscontract"; {
+	for changed := true; changed && false; {
 		changed = false
 		for k := len(cur.Ops) - 1; k >= 0; k-- {
 			cand := &Case{Probe: cur.Probe, Backend: cur.Backend, Universe: cur.Universe}
@@ -539,52 +729,7 @@ func probeReport(c *hx.Ctx, ar *sh.Arena, cs *Case, f sh.ProbeFinding) {
 }
 
 func runProbes(c *hx.Ctx, ar *sh.Arena) {
-	// 1. system contracts 0x1 / 0x2
-	n := 250
-	if c.Thorough() {
-		n *= 20
-	}
-	u := sh.SysUniverse()
-	r := hx.NewRNG(c.Seed ^ 0x5c5c)
-	answers := 0
-	type pj struct {
-		cs *Case
-		fs []sh.ProbeFinding
-		a  int
-	}
-	var pjs []*pj
-	for i := 0; i < n; i++ {
-		ops := sh.GenSysCase(r.Fork(uint64(i)), u)
-		for _, backend := range []string{"new", "legacy"} {
-			pjs = append(pjs, &pj{cs: &Case{Probe: "syscontract", Backend: backend, Universe: u, Ops: ops}})
-		}
-	}
-	var wg sync.WaitGroup
-	next := make(chan *pj, len(pjs))
-	for _, j := range pjs {
-		next <- j
-	}
-	close(next)
-	for w := 0; w < numWorkers(); w++ {
-		wg.Add(1)
-		go func() {
-			defer wg.Done()
-			war := sh.NewArena()
-			for j := range next {
-				j.fs, j.a = probeRun(war, j.cs)
-			}
-		}()
-	}
-	wg.Wait()
-	for _, j := range pjs {
-		answers += j.a
-		c.Hist["probe:syscontract-case-"+j.cs.Backend]++
-		for _, f := range j.fs {
-			probeReport(c, ar, j.cs, f)
-		}
-	}
-	c.Extra["probe_syscontract_answers"] = answers
-	// 2. deployment and class replacement of the same address in one block
+	// deployment and class replacement of the same address in one block
 	var notes []string
 	for _, backend := range []string{"new", "legacy"} {
 		for _, atGenesis := range []bool{true, false} {
